@@ -156,13 +156,22 @@ SetBitPosStep(rd, p, res, rd2) ==
     LET ok == res = "ok" /\ rd2 = [rd EXCEPT !.pos = p, !.peeked = 0]
     IN  IF Src(rd.src).inf \/ p <= SLen(Src(rd.src)) THEN ok ELSE ok \/ (res = "err" /\ rd2 = Kill(rd))
 
-\* bulk copy of n bits into a writer of the same endianness
-CopyStep(rd, wr, n, res, D, rd2, wr2) ==
-    IF Inside(rd, n)
-    THEN /\ res = "ok"
-         /\ rd2 = Adv(rd, n)
-         /\ Appends(wr, Slice(Src(rd.src), rd.pos, n), D, wr2) /\ Eager(wr2)
-    ELSE res = "err" /\ rd2 = Kill(rd) /\ wr2 = [wr EXCEPT !.dead = TRUE]
+\* bulk copy of n bits into a writer of the same endianness.  It fails when the source runs
+\* out (strict stream) or when the destination backend is full; the error blames the side that
+\* actually ran out (side = "read" | "write"); after an error both objects are dead.
+CopyStep(rd, wr, n, res, side, D, rd2, wr2) ==
+    LET S == Src(rd.src)
+        avail == IF Inside(rd, n) THEN n ELSE (IF SLen(S) > rd.pos THEN SLen(S) - rd.pos ELSE 0)
+        A == Slice(S, rd.pos, avail)
+        wfull == Overflows(wr, A)
+    IN  IF Inside(rd, n) /\ ~wfull
+        THEN /\ res = "ok"
+             /\ rd2 = Adv(rd, n)
+             /\ Appends(wr, A, D, wr2) /\ Eager(wr2)
+        ELSE /\ res = "err" /\ rd2 = Kill(rd) /\ wr2 = [wr EXCEPT !.dead = TRUE]
+             /\ (side = "read" => ~Inside(rd, n))
+             /\ (side = "write" => wfull)
+             /\ side \in {"read", "write"}
 
 \* the position a seekable reader reports
 PosOK(rd, reported) == reported < 0 \/ reported = rd.pos
